@@ -221,10 +221,16 @@ impl ObjectTransmissionInformation {
                     return kprime;
                 }
             }
-            unreachable!();
+            // No block size fits in the memory budget with this number of sub-blocks
+            0
         };
 
-        let num_source_blocks = int_div_ceil(kt as u64, kl(n_max) as u64);
+        let kl_max = kl(n_max);
+        assert!(
+            kl_max > 0,
+            "decoder memory requirement is too small for any source block size"
+        );
+        let num_source_blocks = int_div_ceil(kt as u64, kl_max as u64);
 
         let mut n = 1;
         for i in 1..=n_max {
